@@ -1,12 +1,19 @@
 (* C08 — Copied and derived tables are independent; queries never change the parser.
-   PARTIAL.  What is proved is the value-level part: CopyDecay NEW OLD gives NEW a table equal to OLD's
-   in everything but the mother name, appended after the existing tables, and that table is available as
-   the source of a later CDecay (it is part of the table list the CDecay pass of C03 reads).  The model of
-   parse() is purely functional — queries are functions of the stored tables and carry no state — so
-   "shares no state" and "queries never change the parser" cannot be stated in it; those are established
-   by the executed part of the check (object-graph separation, write-through test, query histories). *)
+   Two models.
+   (1) Dec/Post.v, the value model of parse(): CopyDecay NEW OLD gives NEW a table equal to OLD's in everything
+       but the mother name, appended after the existing tables, available as the source of a later CDecay.
+   (2) Dec/Heap.v, the same post-processing on identity-carrying Tree/Token objects with a mutable token store
+       (Transformer = new Tree objects over the same Tokens, copy.deepcopy with its memo, Visitors and the CopyDecay
+       renaming = in-place writes).  Proved for every statement list: in the state parse() leaves behind, no Token
+       and no Tree object occurs twice in the decay tables (not within one table, not in two); a table denotes a
+       function of its own tokens only; hence writing any token of one table leaves what every other table denotes
+       unchanged — copied and conjugated tables share no state with their sources.
+   PARTIAL: queries are modelled as pure readers of that state (functions hres -> value), so "a query never changes
+   the parser" holds in the model by construction and is established for the implementation by the executed part
+   of the check (query histories with mutation of the results, against a fresh parse); that the heap model
+   allocates and shares exactly where CPython/Lark do is the correspondence on the object graph (ids). *)
 From Coq Require Import String List Bool ZArith QArith.
-From DL Require Import Lib.Val Lib.PyDict Decay.Conj Dec.Tables Dec.Syntax Dec.Post.
+From DL Require Import Lib.Val Lib.PyDict Decay.Conj Dec.Tables Dec.Syntax Dec.Post Dec.Heap Dec.HeapProofs.
 Import ListNotations.
 Close Scope Q_scope.
 Open Scope string_scope.
@@ -45,3 +52,42 @@ Print Assumptions C08_copy_is_available_to_cdecay.
 Theorem C08_reparse_same : forall ccdb sc inc f, parse_post ccdb sc inc f = parse_post ccdb sc inc f.
 Proof. reflexivity. Qed.
 Print Assumptions C08_reparse_same.
+
+(* ------------------------------------------------------------------ the identity-carrying model *)
+(* no Token object and no Tree object is reachable twice from the decay tables parse() leaves behind *)
+Theorem C08_tables_share_no_object : forall ccdb sc inc f r,
+  parse_heap ccdb sc inc f = inl r ->
+  NoDup (flat_map tok_ids (r_decays r)) /\ NoDup (flat_map node_ids (r_decays r)) /\
+  (forall i, In i (flat_map tok_ids (r_decays r)) -> i < length (h_toks (r_state r))).
+Proof.
+  intros ccdb sc inc f r H. destruct (parse_heap_separated _ _ _ _ _ H) as [[S1 S2] [B1 _]]. exact (conj S1 (conj S2 B1)).
+Qed.
+Print Assumptions C08_tables_share_no_object.
+
+(* what a table denotes is a function of its own tokens *)
+Theorem C08_table_reads_own_tokens : forall h h' t,
+  (forall i, In i (tok_ids t) -> nth_error h i = nth_error h' i) -> read_table h t = read_table h' t.
+Proof. exact read_table_frame. Qed.
+Print Assumptions C08_table_reads_own_tokens.
+
+(* an in-place write to any token of one table (a source, a copy, a conjugate) changes no other table *)
+Theorem C08_write_to_one_table_changes_no_other : forall ccdb sc inc f r i v t t',
+  parse_heap ccdb sc inc f = inl r -> In t (r_decays r) -> In t' (r_decays r) -> t <> t' -> In i (tok_ids t) ->
+  read_table (upd i v (h_toks (r_state r))) t' = read_table (h_toks (r_state r)) t'.
+Proof. exact parse_heap_tables_independent. Qed.
+Print Assumptions C08_write_to_one_table_changes_no_other.
+
+(* non-vacuity: a file with a shared ModelAlias, a CopyDecay and a CDecay is parsed (no error), its heap state denotes the
+   tables of the value model, and two of its tables are different objects with tokens *)
+Definition c08_example : list stmt :=
+  [SDefine "dm" "0.5"; SModelAlias "MA" (MName "VSS_BMIX" (Some [PLabel "dm"; PLit "1.0"]));
+   SDecay "B0" [ {| d_bf := "0.5"; d_fs := ["K+"; "pi-"]; d_photos := true; d_model := MLabel "MA" |};
+                 {| d_bf := "0.5"; d_fs := ["K+"; "pi-"]; d_photos := false; d_model := MLabel "MA" |} ];
+   SCopyDecay "X" "B0"; SChargeConj "X" "anti-X"; SCDecay "anti-X"].
+Example C08_heap_example :
+  match parse_heap (fun n => n) (fun _ => None) true c08_example with
+  | inl r => tables_of r = match parse_post (fun n => n) (fun _ => None) true c08_example with inl T => Some T | inr _ => None end
+             /\ length (r_decays r) = 3 /\ length (flat_map tok_ids (r_decays r)) = 39
+  | inr _ => False
+  end.
+Proof. vm_compute. repeat split. Qed.
